@@ -503,6 +503,98 @@ theorem get_exact_first (F : Facts) (rest : List Coll) (hF : F.getOrder = .exact
     r.get F path = some ⟨.exact, path, e⟩ := by
   simp [Router.get, hF, Router.lookupIn, h]
 
+/-! ## which paths a router serves, as a function of its registration history -/
+
+/-- Does this registration make `path` served? -/
+def Op.covers (path : Str) : Op → Bool
+  | .route p _ => p = path
+  | .registry p _ => mountMatches (normRegistryPrefix p) path
+  | .struct p _ => mountMatches (normStructRoot p) path
+  | .middleware _ => false
+
+def Router.covers (r : Router) (path : Str) : Bool :=
+  r.inner.any (fun pe => pe.1 = path) || r.registries.any (fun pe => mountMatches pe.1 path) ||
+  r.structs.any (fun pe => mountMatches pe.1 path)
+
+theorem rebuild_any (F : Facts) (c : Coll) (mws : List Nat) (es : List (Str × Entry)) (P : Str → Bool) :
+    (rebuild F c mws es).any (fun pe => P pe.1) = es.any (fun pe => P pe.1) := by
+  unfold rebuild
+  split
+  · induction es with
+    | nil => rfl
+    | cons a es ih => simp only [List.map_cons, List.any_cons, ih]
+  · rfl
+
+theorem apply_covers (F : Facts) (r : Router) (op : Op) (path : Str) :
+    (r.apply F op).covers path = (r.covers path || op.covers path) := by
+  cases op with
+  | route p h =>
+    simp only [Router.apply, Router.covers, Op.covers, List.any_cons]
+    by_cases hp : p = path
+    · simp [hp]
+    · have : (r.inner.filter (fun pe => pe.1 ≠ p)).any (fun pe => pe.1 = path) = r.inner.any (fun pe => pe.1 = path) := by
+        rw [List.any_filter]
+        congr 1
+        funext pe
+        by_cases h : pe.1 = path
+        · have : ¬ path = p := fun e => hp e.symm
+          simp [h, this]
+        · simp [h]
+      rw [this]
+      simp [hp]
+  | registry p h =>
+    simp only [Router.apply, Router.covers, Op.covers, List.any_append, List.any_cons, List.any_nil, Bool.or_false]
+    cases r.inner.any _ <;> cases r.registries.any _ <;> cases r.structs.any _ <;> cases mountMatches _ _ <;> rfl
+  | struct p h =>
+    simp only [Router.apply, Router.covers, Op.covers, List.any_append, List.any_cons, List.any_nil, Bool.or_false]
+    cases r.inner.any _ <;> cases r.registries.any _ <;> cases r.structs.any _ <;> cases mountMatches _ _ <;> rfl
+  | middleware m =>
+    simp only [Router.apply, Router.covers, Op.covers, Bool.or_false]
+    rw [rebuild_any F .exact _ _ (fun k => decide (k = path)), rebuild_any F .registries _ _ (fun k => mountMatches k path),
+        rebuild_any F .structs _ _ (fun k => mountMatches k path)]
+
+theorem run_covers (F : Facts) (ops : List Op) (r : Router) (path : Str) :
+    (r.run F ops).covers path = (r.covers path || ops.any (Op.covers path)) := by
+  induction ops generalizing r with
+  | nil => simp [Router.run]
+  | cons op ops ih =>
+    have := ih (r.apply F op)
+    simp only [Router.run, List.foldl_cons] at this ⊢
+    rw [this, apply_covers, List.any_cons, Bool.or_assoc]
+
+theorem get_isSome_eq_covers (F : Facts) (hF : F.getOrder = [.exact, .registries, .structs]) (r : Router) (path : Str) :
+    (r.get F path).isSome = r.covers path := by
+  unfold Router.get Router.covers
+  rw [hF]
+  simp only [List.findSome?_cons, List.findSome?_nil, Router.lookupIn, lookupExact, lookupMount]
+  cases h1 : r.inner.find? (fun pe => pe.1 = path) with
+  | some a =>
+    have : r.inner.any (fun pe => pe.1 = path) = true := by
+      rw [List.any_eq_true]; exact ⟨a, List.mem_of_find?_eq_some h1, by simpa using List.find?_some h1⟩
+    simp [this]
+  | none =>
+    have e1 : r.inner.any (fun pe => decide (pe.1 = path)) = false := by
+      rw [List.any_eq_false]; intro x hx; exact List.find?_eq_none.mp h1 x hx
+    simp only [Option.map_none, e1, Bool.false_or]
+    cases h2 : r.registries.find? (fun pe => mountMatches pe.1 path) with
+    | some a =>
+      have : r.registries.any (fun pe => mountMatches pe.1 path) = true := by
+        rw [List.any_eq_true]; exact ⟨a, List.mem_of_find?_eq_some h2, by simpa using List.find?_some h2⟩
+      simp [this]
+    | none =>
+      have e2 : r.registries.any (fun pe => mountMatches pe.1 path) = false := by
+        rw [List.any_eq_false]; intro x hx; exact List.find?_eq_none.mp h2 x hx
+      simp only [Option.map_none, e2, Bool.false_or]
+      cases h3 : r.structs.find? (fun pe => mountMatches pe.1 path) with
+      | some a =>
+        have : r.structs.any (fun pe => mountMatches pe.1 path) = true := by
+          rw [List.any_eq_true]; exact ⟨a, List.mem_of_find?_eq_some h3, by simpa using List.find?_some h3⟩
+        simp [this]
+      | none =>
+        have e3 : r.structs.any (fun pe => mountMatches pe.1 path) = false := by
+          rw [List.any_eq_false]; intro x hx; exact List.find?_eq_none.mp h3 x hx
+        simp [e3]
+
 /-! ## middleware chains -/
 
 theorem nextRun_forwarding {κ ρ} (h : Handler κ ρ) (ctx : Option κ) (mws : List (Mw κ ρ))
